@@ -247,6 +247,15 @@ func (v *Vue) evaluateNodeAsElement(ctx VueContext, node *html.Node, depth int) 
 		return result, nil
 	}
 
+	// The member the chain selected is reached now: a v-once element is emitted the first time only
+	if helpers.HasAttr(node, "v-once") {
+		vSeenID := helpers.GetAttr(node, "v-once-id")
+		if ctx.seen[vSeenID] {
+			return nil, nil
+		}
+		ctx.seen[vSeenID] = true
+	}
+
 	// A slot that is a member of a v-if chain is filled like any other slot
 	if node.Data == "slot" {
 		return v.evalSlot(ctx, node, ctx.SlotScope, depth)
